@@ -177,6 +177,7 @@ func cmdCheck(args []string) {
 		perFunc[r.Func] = r
 	}
 	covers, coverSat := 0, 0
+	coverSites := map[string]bool{}
 	for _, o := range all {
 		solverSecs += o.Result.Seconds
 		if o.Result.Answer == "error" {
@@ -185,12 +186,18 @@ func cmdCheck(args []string) {
 		}
 		if o.MustFail {
 			covers++
-			switch o.Result.Answer {
-			case "sat":
+			site := o.FuncKey + "@" + o.Pos
+			if strings.Contains(o.Kind, "cover@entry") {
+				site = o.FuncKey + "@entry"
+			}
+			if _, seen := coverSites[site]; !seen {
+				coverSites[site] = false
+			}
+			if o.Result.Answer != "unsat" {
+				coverSites[site] = true
+			}
+			if o.Result.Answer == "sat" {
 				coverSat++
-			case "unsat":
-				fmt.Printf("CHECK BROKEN: vacuity guard: path condition unsatisfiable at %s (%s)\n", o.Name, o.Pos)
-				os.Exit(2)
 			}
 			continue
 		}
@@ -217,6 +224,12 @@ func cmdCheck(args []string) {
 			failOrder = append(failOrder, o.Name)
 		}
 		f.obls = append(f.obls, o)
+	}
+	for site, feasible := range coverSites {
+		if !feasible {
+			fmt.Printf("CHECK BROKEN: vacuity guard: no feasible path reaches %s (contradictory contract or assumption)\n", site)
+			os.Exit(2)
+		}
 	}
 	if nObl == 0 {
 		fmt.Printf("CHECK BROKEN: zero obligations generated for %s\n", *prop)
@@ -325,6 +338,14 @@ func writeReplay(e *Engine, verifDir, dir, prop string, obls []*Obligation) (str
 			break
 		}
 	}
+	if o.Result.Answer != "sat" {
+		for _, x := range obls {
+			if x.Candidate {
+				o = x
+				break
+			}
+		}
+	}
 	base := filepath.Join(dir, sanitize(o.Name))
 	os.WriteFile(base+".smt2", []byte(o.Script), 0o644)
 	model := map[string]string{}
@@ -352,7 +373,8 @@ func writeReplay(e *Engine, verifDir, dir, prop string, obls []*Obligation) (str
 	}
 	reproduced := false
 	verdict := "no-model"
-	if o.Result.Answer == "sat" {
+	rec["model_is_candidate_only"] = o.Candidate
+	if o.Result.Answer == "sat" || o.Candidate {
 		verdict = "no-template"
 		if ok, out, ran := runReplayTemplate(e, verifDir, base, o, model); ran {
 			rec["replay_output"] = abbreviate(out, 4000)
